@@ -157,20 +157,9 @@ func ruleUsedTable(c *chk.Ctx, d *dispatchModel) {
 		})
 		c.Check(guarded, "PAIR.reserve", d.checkAssign, "reserve only valid tasks", resSite.Pos(), "the reservation is reached only on the err == nil edge of the task (duplicates and invalid members never overwrite an entry)",
 			"the reservation is not governed by err == nil of the task: a rejected duplicate would overwrite (and later release) its predecessor's entry")
-		// the anchor of the reservation inside the check/assign function
-		var anchor ssa.Instruction = resSite
-		if resSite.Parent() != d.checkAssign {
-			ir.Calls(d.checkAssign, func(ci ssa.CallInstruction) {
-				for _, g := range calleesOf(c, ci) {
-					if c.P.InExt(g, resSite.Parent()) || g == resSite.Parent() {
-						anchor = ci
-					}
-				}
-			})
-		}
 		// duplicate detection: a lookup in the table whose hit edge stores an error into the task
 		var lookup *ssa.Lookup
-		ir.Instrs(d.checkAssign, func(ins ssa.Instruction) {
+		c.P.ExtInstrs(d.checkAssign, func(ins ssa.Instruction) {
 			if lk, ok := ins.(*ssa.Lookup); ok && chk.LoadsField(lk.X, used) {
 				lookup = lk
 			}
@@ -179,7 +168,7 @@ func ruleUsedTable(c *chk.Ctx, d *dispatchModel) {
 			c.Fail("PAIR.reserve", d.checkAssign, "duplicate detection", d.checkAssign.Pos(), "no lookup of the request id in the in-flight table before reserving")
 		} else {
 			hitStores := false
-			ir.Instrs(d.checkAssign, func(ins ssa.Instruction) {
+			c.P.ExtInstrs(d.checkAssign, func(ins ssa.Instruction) {
 				st, ok := ins.(*ssa.Store)
 				if !ok {
 					return
@@ -188,7 +177,7 @@ func ruleUsedTable(c *chk.Ctx, d *dispatchModel) {
 				if !ok || ir.FieldVar(fa) != c.M.TErr {
 					return
 				}
-				for _, cd := range ir.CondsAt(st.Block()) {
+				for _, cd := range c.P.CondsWithin(st, d.checkAssign) {
 					if x, eq, ok := ir.NilCompare(cd.V); ok && x == ssa.Value(lookup) && eq != cd.Truth {
 						hitStores = true
 					}
@@ -197,9 +186,19 @@ func ruleUsedTable(c *chk.Ctx, d *dispatchModel) {
 					}
 				}
 			})
+			// two phases: inside the smallest region holding both, no path leads from (the anchor
+			// of) a reservation to (the anchor of) a lookup
 			back := false
-			if anchor.Parent() == d.checkAssign {
-				back, _ = ir.Reaches(anchor, func(i ssa.Instruction) bool { return i == ssa.Instruction(lookup) }, nil)
+			if common := c.P.RegionRoot(lookup.Parent(), resSite.Parent()); common != nil {
+				for _, ra := range anchorsIn(c, resSite, common) {
+					for _, la := range anchorsIn(c, lookup, common) {
+						if ok, _ := ir.Reaches(ra, func(i ssa.Instruction) bool { return i == la }, nil); ok || ra == la {
+							back = true
+						}
+					}
+				}
+			} else {
+				back = true
 			}
 			c.Check(hitStores && !back, "PAIR.reserve", d.checkAssign, "duplicate detection precedes reservation", lookup.Pos(), "a hit in the in-flight table fails the task, and every lookup of a batch happens before its first reservation (two phases)",
 				fmt.Sprintf("duplicate detection is incomplete (hit stores error=%v, a reservation can precede a later lookup=%v)", hitStores, back))
@@ -237,7 +236,7 @@ func ruleReserveRelease(c *chk.Ctx, d *dispatchModel) {
 	// 1. the marker store in the response builder: Store to jmessage.err governed by task.X == nil
 	var X *types.Var
 	var markPos token.Pos
-	ir.Instrs(d.responses, func(ins ssa.Instruction) {
+	c.P.ExtInstrs(d.responses, func(ins ssa.Instruction) {
 		st, ok := ins.(*ssa.Store)
 		if !ok || !chk.IsField(st.Addr, c.M.JErr) {
 			return
@@ -348,6 +347,12 @@ func ruleReserveRelease(c *chk.Ctx, d *dispatchModel) {
 			if nn && ir.InstrDominates(st, mu) {
 				dom = true
 			}
+			if nn && !dom {
+				// or the store lies on every path from the reservation to the function's exit
+				if ok, _ := (ir.PathQuery{Goal: func(i ssa.Instruction) bool { return i == ssa.Instruction(st) }}).MustReach(mu); ok {
+					dom = true
+				}
+			}
 			if !nn {
 				laterBad = true
 			}
@@ -423,4 +428,40 @@ func isLenCond(cd ir.Cond) bool {
 	_, a := ir.LenOf(bo.X)
 	_, b := ir.LenOf(bo.Y)
 	return a || b
+}
+
+
+// anchorsIn returns the instructions of root through which ins is reached: ins
+// itself when it sits in root, otherwise the call sites in root that lead
+// (through private helpers) to the function of ins.
+func anchorsIn(c *chk.Ctx, ins ssa.Instruction, root *ssa.Function) []ssa.Instruction {
+	var out []ssa.Instruction
+	seen := map[ssa.Instruction]bool{}
+	var walk func(at ssa.Instruction, depth int)
+	walk = func(at ssa.Instruction, depth int) {
+		if seen[at] || depth > 6 {
+			return
+		}
+		seen[at] = true
+		if at.Parent() == root {
+			out = append(out, at)
+			return
+		}
+		f := at.Parent()
+		sites := c.P.Callers(f)
+		if len(sites) == 0 && f.Parent() != nil {
+			// closure run where it is created (synchronous callback): anchor at its creation
+			ir.Instrs(f.Parent(), func(i ssa.Instruction) {
+				if mc, ok := i.(*ssa.MakeClosure); ok && mc.Fn == f {
+					walk(mc, depth+1)
+				}
+			})
+			return
+		}
+		for _, s := range sites {
+			walk(s.Instr, depth+1)
+		}
+	}
+	walk(ins, 0)
+	return out
 }
